@@ -8,3 +8,8 @@ import "github.com/olareg/olareg/internal/store"
 func VerifSetVfsHook(f func(op string, paths []string, data []byte)) {
 	store.VerifVfsHook = f
 }
+
+// VerifSetVfsFault installs f as the fault injector asked before every mutating file system call of the store.
+func VerifSetVfsFault(f func(op string, paths []string) error) {
+	store.VerifVfsFault = f
+}
